@@ -208,3 +208,93 @@ Proof.
     | |- wp _ (handle_processor_error _) _ _ _ => p_docall_d p_handle_processor_error (fst d, false)
     | |- wp _ (auto_commit _) _ _ _ => p_docall_d p_auto_commit (fst d, false) end). all: p_done.
 Qed.
+Lemma p_emit_shutd ok v lc d w s : PInv d w s -> ww (emit_shutd (OShutD ok v lc)) (PF d w s) (pw_abs w s) s.
+Proof. intro K. unfold emit_shutd, PF, Fp. p_walk c6. all: p_done. Qed.
+Ltac c7 := idtac; first [ c6 | lazymatch goal with
+  | |- wp _ (emit_shutd (OShutD _ _ _)) _ _ _ => p_docall p_emit_shutd
+  | |- wp _ (emit_shutd (match ?x with _ => _ end)) _ _ _ => destruct x end ].
+Lemma p_interrupted d w s : PInv d w s -> ww interrupted (PF d w s) (pw_abs w s) s.
+Proof. intro K. unfold interrupted, PF, Fp. p_walk c7. all: p_done. Qed.
+Ltac c8 := idtac; first [ c7 | lazymatch goal with
+  | |- wp _ interrupted _ _ _ => p_docall p_interrupted end ].
+
+(* ---------- the re-entrant methods ---------- *)
+(* what a continuation needs on entry: the invariant; inside the window a dead and drained state (except stop()
+   itself, which makes it so); a block is handed on only with no processor result pending and a block in progress *)
+Definition loop_ok (s : state) : Prop := dead s = false -> s_proc s = None /\ is_some (s_mblock s) = true.
+Definition PreD (k : kont) (d : bool * bool) (w : option (Z * Z)) (g : gpw) (s : state) : Prop :=
+  match k with
+  | KStop => g = pw_abs w s /\ PInv d w s /\ (is_some w = true -> s_proc s = None)
+  | KFireProc fk =>
+    match s_proc s with
+    | Some (l, _, _) => w = None /\ g = fired s l fk /\ PInv d None s
+    | None => g = pw_abs w s /\ PInv d w s /\ (is_some w = true -> snd d = true)
+    end
+  | KProcLoop _ => g = pw_abs w s /\ PInv d w s /\ (is_some w = true -> snd d = true) /\ loop_ok s
+  | _ => g = pw_abs w s /\ PInv d w s /\ (is_some w = true -> snd d = true)
+  end.
+Definition dmode (k : kont) (d : bool * bool) : bool * bool :=
+  match k with KStop => (true, true) | KFireProc _ => (fst d, fst d) | _ => d end.
+Definition PostD (k : kont) (d : bool * bool) (w : option (Z * Z)) (s : state) : res unit -> gpw -> state -> Prop :=
+  fun r g' s' => g' = pw_abs w s' /\
+    (PInv (dmode k d) w s' \/ (k = KStop /\ s_startd s = None /\ PInv d w s')).   (* stop() on a stopped consumer raises *)
+
+Section Rec.
+Variable rec : kont -> M unit.
+Hypothesis Hrec : forall k d w g s, PreD k d w g s -> ww (rec k) (PostD k d w s) g s.
+
+Lemma Hrec_plain k d w s : PInv d w s -> (is_some w = true -> snd d = true) ->
+  match k with KStop | KFireProc _ | KProcLoop _ => False | _ => True end ->
+  ww (rec k) (PQ d w) (pw_abs w s) s.
+Proof.
+  intros K W Hk. eapply wp_conseq; [apply (Hrec k d w) |].
+  - destruct k; try contradiction; cbn; auto.
+  - intros r g' s' [-> [H | (E & _)]]; [| subst k; contradiction]. destruct k; try contradiction; split; auto.
+Qed.
+Lemma Hrec_stop d w s : PInv d w s -> (is_some w = true -> s_proc s = None) -> is_some (s_startd s) = true ->
+  ww (rec KStop) (PQ (true, true) w) (pw_abs w s) s.
+Proof.
+  intros K W SD. eapply wp_conseq; [apply (Hrec KStop d w) |].
+  - cbn. repeat split; auto.
+  - intros r g' s' [-> [H | (_ & E & _)]]; [split; auto | rewrite E in SD; discriminate SD].
+Qed.
+Lemma Hrec_loop msgs d w s : PInv d w s -> (is_some w = true -> snd d = true) -> loop_ok s ->
+  ww (rec (KProcLoop msgs)) (PQ d w) (pw_abs w s) s.
+Proof.
+  intros K W N. eapply wp_conseq; [apply (Hrec (KProcLoop msgs) d w) |].
+  - cbn. auto.
+  - intros r g' s' [-> [H | (E & _)]]; [split; auto | discriminate E].
+Qed.
+
+Ltac lsolve := unfold loop_ok; intro; psolve.
+Ltac wcond := first [ assumption | solve [intro; discriminate] | solve [cbn; intros; congruence] | solve [psolve]
+  | solve [ let H := fresh "Hw" in intro H;
+            repeat match goal with W : is_some _ = true -> _ |- _ => specialize (W H) end; psolve ] ].
+Ltac pinv_arg := try (match goal with K : PInv ?d0 _ _ |- PInv ?e _ _ => is_evar e; unify e d0 end); solve [psolve].
+Ltac c9 := idtac; first [ c8 | lazymatch goal with
+  | |- wp _ (rec KStop) _ _ _ =>
+    let w0 := cur_w in eapply p_eq with (w := w0); [ solve [psolve] |
+      eapply wp_call; [ eapply Hrec_stop; [ pinv_arg | wcond | solve [psolve] ] | after_call ] ]
+  | |- wp _ (rec (KProcLoop _)) _ _ _ =>
+    let w0 := cur_w in eapply p_eq with (w := w0); [ solve [psolve] |
+      eapply wp_call; [ eapply Hrec_loop; [ pinv_arg | wcond | solve [lsolve] ] | after_call ] ]
+  | |- wp _ (rec (KFireProc _)) _ _ _ => fail
+  | |- wp _ (rec _) _ _ _ =>
+    let w0 := cur_w in eapply p_eq with (w := w0); [ solve [psolve] |
+      eapply wp_call; [ eapply Hrec_plain; [ pinv_arg | wcond | exact I ] | after_call ] ]
+  end ].
+
+Lemma p_handle_commit_error fk i a d w s : PInv d w s -> (is_some w = true -> snd d = true) ->
+  ww (handle_commit_error rec fk i a) (PQ d w) (pw_abs w s) s.
+Proof. intros K W. unfold handle_commit_error. p_walk c9. all: p_done. Qed.
+Lemma p_fire_all ds r d w s : PInv d w s -> (is_some w = true -> snd d = true) ->
+  ww (fire_all rec ds r) (PQ d w) (pw_abs w s) s.
+Proof.
+  revert s. induction ds as [|x ds IH]; intros s K W; cbn [fire_all].
+  - p_walk c9. all: p_done.
+  - p_walk c9. all: try (apply IH; [solve [psolve] | wcond]). all: p_done.
+Qed.
+(* the end of a block: the parked reply, if any, is handled next *)
+Lemma p_finish_block d w s : PInv d w s -> (is_some w = true -> snd d = true) -> (dead s = false -> s_proc s = None) ->
+  ww (finish_block rec) (PQ d w) (pw_abs w s) s.
+Proof. intros K W N. unfold finish_block. p_walk c9. all: p_done. Show. Qed.
